@@ -55,7 +55,11 @@ CHECKS['C06'] = dict(
         "constraint's own value/precision/epsilon; each of the ten detect_*_constraint methods of the real pandas detector (and the two fuzzy column comparisons) "
         'is proved, over a stub of the pandas column operations, to write exactly one flag column, named after its constraint kind, holding the mask the '
         'property describes (every record false when the type cannot satisfy the kind; records within the bound under the documented precision; string lengths; '
-        'non-null records for max_nulls; members of duplicated groups, nulls unflagged; records holding a violating value). '
+        'non-null records for max_nulls; members of duplicated groups, nulls unflagged; records holding a violating value); '
+        'write_detected_records (in-memory part, over a row-level stub of the frames: 1..3 three-valued flag columns, any number of rows) is proved to give each '
+        'record a failure count equal to its number of false flags, to count as failing exactly the records with a false flag with the two counts partitioning '
+        'the rows, to return exactly the failing records unless all are asked for, with the output fields, the flags if asked and the count as columns, and to '
+        'assign to the input frame only for in-place output; save_df is proved to send the records to the named file through the writer of its format or to standard output. '
         "Bounded (runtime contracts on real pandas code, labelled): per-record flags "
         'equal the documented meaning per kind, nulls flagged only by type/max_nulls, n_failures = false flags, counts partition '
         'the rows, output frame/file holds exactly the failing records (identified by index label, also on re-indexed frames), stale/absent output files, input frame unchanged. '
